@@ -24,10 +24,14 @@ type RType struct{ T types.Type }
 var rtypeT = opaqueType("reflect.rtype")
 
 const (
-	rvValid = 1
-	rvAddr  = 2
-	rvSet   = 4
+	rvValid    = 1
+	rvAddr     = 2
+	rvSet      = 0 // settable = addressable and not read-only (see rvCanSet)
+	rvStickyRO = 8  // reached through an unexported non-embedded field
+	rvEmbedRO  = 16 // is itself an unexported embedded field
 )
+
+func rvCanSet(fl uint64) bool { return fl&rvAddr != 0 && fl&(rvStickyRO|rvEmbedRO) == 0 }
 
 const (
 	kInvalid = iota
@@ -197,8 +201,8 @@ func (in *Interp) reflPanic(msg string) *GoPanic {
 }
 
 func (in *Interp) rvSettable(d rvDec, what string) {
-	if d.flags&rvSet == 0 {
-		panic(in.reflPanic("reflect: " + what + " using unaddressable value"))
+	if !rvCanSet(d.flags) {
+		panic(in.reflPanic("reflect: " + what + " using unaddressable value or value obtained using unexported field"))
 	}
 }
 
@@ -468,7 +472,7 @@ func init() {
 		return term.BVC(64, uint64(kindOf(in.decRV(args[0]).t)))
 	})
 	regV("Type", func(in *Interp, d rvDec, args []Value) Value { return in.mkRType(d.t) })
-	regV("CanSet", func(in *Interp, d rvDec, args []Value) Value { return term.BoolC(d.flags&rvSet != 0) })
+	regV("CanSet", func(in *Interp, d rvDec, args []Value) Value { return term.BoolC(rvCanSet(d.flags)) })
 	regV("CanAddr", func(in *Interp, d rvDec, args []Value) Value { return term.BoolC(d.flags&rvAddr != 0) })
 	regV("CanInterface", func(in *Interp, d rvDec, args []Value) Value { return term.True })
 	regV("Interface", func(in *Interp, d rvDec, args []Value) Value { return in.rvInterface(d) })
@@ -520,9 +524,14 @@ func init() {
 		if i < 0 || i >= u.NumFields() {
 			panic(in.reflPanic("reflect: Field index out of range"))
 		}
-		fl := d.flags
+		// as in reflect: sticky read-only is inherited, embed read-only is not
+		fl := d.flags & (rvValid | rvAddr | rvStickyRO)
 		if !u.Field(i).Exported() {
-			fl &^= rvSet
+			if u.Field(i).Embedded() {
+				fl |= rvEmbedRO
+			} else {
+				fl |= rvStickyRO
+			}
 		}
 		return in.mkRV(u.Field(i).Type(), d.c.F[i], fl)
 	})
